@@ -51,9 +51,11 @@ PROPS = {
                 rule='observation started while the hot buffer already held data, a tier move, or an op sequence with a move/rejected ingest',
                 nontrivial=lambda o: o['probes'].get('start_under_load') or o['probes'].get('tier_move') or o['probes'].get('move_h2c')
                 or any(k.startswith('F8') for k in o['faults'])),
-    'C08': dict(jobs=[('sim', 'contend', .5), ('sim', 'live', .5)], quick_n=3000,
-                rule='an observation started under load (buffer or machines partly in use) or two started in one step',
-                nontrivial=lambda o: o['probes'].get('start_under_load') or o['probes'].get('two_starts_same_step')),
+    'C08': dict(jobs=[('sim', 'contend', .42), ('sim', 'live', .42), ('buffer_ops', '-', .16)], quick_n=3500,
+                rule='an observation started under load (buffer or machines partly in use) or two started in one step, or a buffer '
+                     'op sequence with admission queries at the edge of the free space',
+                nontrivial=lambda o: o['probes'].get('start_under_load') or o['probes'].get('two_starts_same_step')
+                or o['probes'].get('admission_query')),
     'C09': dict(jobs=[('sim', 'batch', .7), ('cluster_ops', '-', .3)], quick_n=4000,
                 rule='batch run with >=2 reservations, or op sequence with a foreign/own-reservation allocation',
                 nontrivial=lambda o: o['probes'].get('reservation', 0) >= 2 or o['probes'].get('alloc_own') or o['faults'].get('F8:refused_foreign')),
@@ -272,7 +274,7 @@ def replay(path, quiet=False):
     return bool(hit), out, rp, hit
 
 
-def _chain_replay(pid, sig, xs, seed, replay_fn, budget_s=600):
+def _chain_replay(pid, sig, xs, seed, replay_fn, budget_s=300):
     """A failure that does not reproduce in a fresh interpreter may depend on state left behind by the
     simulations the worker ran before it (module-level caches, class attributes, mutable defaults).  Re-run the
     worker's history followed by the case in a fresh interpreter; if that reproduces, minimise the history
@@ -305,7 +307,7 @@ def _chain_replay(pid, sig, xs, seed, replay_fn, budget_s=600):
         k *= 2
     # drop single entries (earliest first)
     i = 0
-    while i < len(best_h) and len(best_h) > 1 and time.time() - t0 < budget_s:
+    while i < len(best_h) and 1 < len(best_h) <= 16 and time.time() - t0 < budget_s:
         h = best_h[:i] + best_h[i + 1:]
         p = attempt(h)
         if p:
